@@ -53,3 +53,63 @@ def _interfaces(ob, which, d, k):
 
 scenario('C13', 'interfaces', ['torchtt._division.compute_phi_fwd_A', 'torchtt._division.compute_phi_bck_A', 'torchtt._division.compute_phi_fwd_rhs', 'torchtt._division.compute_phi_bck_rhs', 'torchtt._division.local_product'],
          quick=[dict(which='divide', d=d, k=k) for d in (1, 2, 3) for k in range(d)], replay=None, max_paths=50)(_interfaces)
+
+
+def _divide_hook(calls):
+    """contract use of amen_divide(a, b, ...) = cores of the TT q with a * q = b (accuracy: bounded stand-in): record the operands"""
+    def hook(ex, f, args, kwargs):
+        a, b = args[0], args[1]
+        calls.append((a, b, args[2:], kwargs))
+        Rq = [1] + H.sym_sizes(ex, 'q_R%d_' % len(calls), len(b.attrs['cores']) - 1) + [1]
+        N = H.tt_fields(ex, b)['N']
+        return [T.opaque_tensor([Rq[k], N[k], Rq[k + 1]], b.attrs['cores'][0].dtype, 'q%d' % k) for k in range(len(N))]
+    return hook
+
+
+@scenario('C13', 'division.entry', ['torchtt._tt_base.TT.__truediv__', 'torchtt._tt_base.TT.__rtruediv__', 'torchtt._extras.elementwise_divide'],
+          quick=[dict(form=f, d=d) for f in ('tt_div_tt', 'scalar_div_tt', 'tensor0_div_tt', 'elementwise_divide', 'elementwise_divide_guess') for d in (1, 2, 3)],
+          replay='tt_op', max_paths=60)
+def division_entry(ob, form, d):
+    """the three entry points hand the right problem to the AMEn division: amen_divide(divisor, numerator, ...) is called once with
+    the divisor y itself and with a numerator whose dense value is x (resp. the scalar s in every entry); the result is the TT built
+    from the returned cores, of the shape of y; operands (and the starting tensor) are not written"""
+    ex = ob.ex
+    calls = []
+    ex.call_hooks['torchtt._division.amen_divide'] = _divide_hook(calls)
+    y = ob.tt('y', d, dtype='float64')
+    x = ob.tt('x', d, N=y.N_, dtype='float64')
+    sval = z3.Real('s')
+    ob.replay_args = {'op': 'div', 'x': 'x', 'y': 'y', 'expect_accuracy': 1e-6}
+    if form == 'tt_div_tt':
+        r = ex.binop('Div', x, y)
+    elif form == 'scalar_div_tt':
+        r = ex.binop('Div', SymScalar(sval, 'float', 'float'), y)
+    elif form == 'tensor0_div_tt':
+        s0 = STensor([], 'float64', lambda idx: Term.of(sval))
+        ex.register_arg(s0, 's')
+        r = ex.binop('Div', s0, y)
+    else:
+        g = ob.tt('g', d, N=y.N_, dtype='float64') if form.endswith('guess') else None
+        kw = {'starting_tensor': g} if g is not None else {}
+        r = ex.call(ex.module('torchtt._extras').env['elementwise_divide'], [x, y], kw)
+    ob.prove('amen_divide_called_once', len(calls) == 1)
+    if len(calls) != 1:
+        return
+    a, b, rest, kw = calls[0]
+    ob.prove('divisor_is_y', a is y)
+    if not is_tt(b):
+        ob.fail('numerator_is_tt', 'post', 'numerator handed to amen_divide is %r' % (b,))
+        return
+    ob.wf(b, 'numerator.wf') if b is not x else ob.ok('numerator.wf')
+    fb = fields(ob, b)
+    all_eq(ob, 'numerator.N', fb['N'], y.N_)
+    if len(fb['N']) == d:
+        idx = mode_index(ob, b)
+        want = val(ob, x, idx) if form in ('tt_div_tt', 'elementwise_divide', 'elementwise_divide_guess') else Term.of(sval)
+        ob.prove_eq('numerator.value', val(ob, b, idx), want)
+    if form == 'elementwise_divide_guess':
+        passed = list(rest) + list(kw.values())
+        ob.prove('starting_tensor_forwarded', any(p is g for p in passed))
+    ob.wf(r, 'result.wf')
+    all_eq(ob, 'result.N', fields(ob, r)['N'], y.N_)
+    ob.frame()
